@@ -18,7 +18,10 @@ CHECKS = {
              "invariants is established by new(), preserved by every public mutator and by close_until's prologue and loop body, and "
              "that `return false` is reached only in a state where every rule of an independently written reference semantics holds for "
              "every assignment (incl. single-valuedness of functions). One inductive step covers histories of any length; a failed lemma is "
-             "reported only with a solver-found public API history that reproduces natively.",
+             "reported only with a solver-found public API history that reproduces natively. In addition, at the rule level and for models of any "
+             "size: for every stage of every reference rule the real rule module is executed on the canonical database of the stage's premise "
+             "(one element per variable, all tuples new) and must push the conclusion instance (homomorphism theorem for conjunctive queries); "
+             "this phase is a concrete execution, not a solver query, and also covers rules too large for the state-level lemmas.",
         design_ref="§4 C01, §9"),
     "C04": dict(
         technique="bounded inductive verification by SAT over predicated symbolic execution of the generated Rust",
